@@ -5,7 +5,7 @@
    g, and that one ends at e. *)
 From Coq Require Import ZArith List Bool Lia Permutation.
 From DV Require Import Base.MachInt Model.ChunkModel Gen.GenChunk Model.ParForModel Model.DynModel Model.StripeModel
-  Model.C12Check Model.C13Check Proofs.DynDecideProofs Proofs.C12Proofs Proofs.C13Proofs.
+  Base.Corr Model.C12Check Model.C13Check Proofs.DynDecideProofs Proofs.C12Proofs Proofs.C13Proofs.
 Import ListNotations.
 Local Open Scope Z_scope.
 
@@ -28,46 +28,38 @@ Theorem C13_dynamic : forall c l3 sched, pf_dom c -> pf_mode c = MDynamic ->
 Proof. exact C13_dynamic_proof. Qed.
 Print Assumptions C13_dynamic.
 
-(* adaptive path when start is a multiple of g (outside c13_misaligned_domain): every claim/steal schedule without
-   cursor wrap *)
-Theorem C13_adaptive_aligned : forall c sched, pf_dom c -> pf_mode c = MAdaptive -> c12_narrow_domain c = false ->
-  c13_misaligned_domain c = false ->
+(* adaptive path: every claim/steal schedule without cursor wrap, every start (initStripeState aligns stripe lengths
+   relative to start) *)
+Theorem C13_adaptive : forall c sched, pf_dom c -> pf_mode c = MAdaptive ->
   exists sc, pf_scfg c = Some sc /\
     (stripe_complete sc sched = true -> stripe_nowrap sc sched = true ->
      gran_okb (c13_gran c) (pf_e c) (stripe_calls sc sched) = true).
 Proof. exact C13_adaptive_proof. Qed.
-Print Assumptions C13_adaptive_aligned.
+Print Assumptions C13_adaptive.
 
-(* the property at full strength -- FALSE for the code that exists *)
-Definition C13_full_statement : Prop :=
-  forall c x, pf_dom c -> pf_complete c x = true -> c12_narrow_domain c = false -> c12_nowrap c x = true ->
+(* the property: all modes, all start mod g, all executions (complete, no cursor wrap -- the wrap is C12's
+   finding, under which the body is handed garbage ranges) *)
+Theorem C13_holds : forall c x, pf_dom c -> pf_complete c x = true ->
+  c12_nowrap c x = true ->
   exists l, pf_calls c x = Some l /\ gran_okb (c13_gran c) (pf_e c) l = true.
+Proof. exact C13_holds_proof. Qed.
+Print Assumptions C13_holds.
 
-(* finding adaptive-absolute-alignment: a complete, wrap-free execution in the domain whose invocations contain
-   [195,200) (size 5, g = 8, does not end at 1003) besides the legitimate tail [1000,1003).  Reproduced on the real
-   code (props/C13.py WITNESS). *)
-Theorem C13_refuted :
-  pf_dom c13_witness /\ pf_complete c13_witness c13_witness_exec = true /\
-  c12_narrow_domain c13_witness = false /\ c12_nowrap c13_witness c13_witness_exec = true /\
-  c13_misaligned_domain c13_witness = true /\
-  exists l, pf_calls c13_witness c13_witness_exec = Some l /\ In (195, 200) l /\ In (1000, 1003) l /\
-            gran_okb (c13_gran c13_witness) (pf_e c13_witness) l = false.
-Proof. exact C13_refuted_proof. Qed.
-Print Assumptions C13_refuted.
+(* regression: the witness of the former finding adaptive-absolute-alignment (int32 [3,1003), g = 8, adaptive, 4-thread
+   pool; before the fix stripe 0 was [3,200) and ended with the invocation [195,200)).  Now every stripe length is a
+   multiple of 8: complete, wrap-free, 125 invocations of size 8 (1000 = 125 * 8, no tail; the old [1000,1003) was a clipped
+   stripe claim as well) *)
+Example C13_regression_former_witness :
+  pf_mode c13_witness = MAdaptive /\ pf_complete c13_witness c13_witness_exec = true /\
+  c12_nowrap c13_witness c13_witness_exec = true /\
+  option_map (fun l => (length l, gran_okb 8 1003 l, existsb (zpair_eqb (195, 200)) l, existsb (zpair_eqb (1000, 1003)) l))
+             (pf_calls c13_witness c13_witness_exec) = Some (125%nat, true, false, false).
+Proof. vm_compute. repeat split; reflexivity. Qed.
 
-(* the contract on the complement of the finding's domain: adaptive with start = 0 (mod g), and all other modes *)
-Theorem C13_holds_except : forall c x, pf_dom c -> pf_complete c x = true ->
-  c12_narrow_domain c = false -> c12_nowrap c x = true -> c13_misaligned_domain c = false ->
-  exists l, pf_calls c x = Some l /\ gran_okb (c13_gran c) (pf_e c) l = true.
-Proof. exact C13_holds_except_proof. Qed.
-Print Assumptions C13_holds_except.
-
-(* the hypotheses are satisfiable by a non-trivial input: the witness moved to start 8 (int32 [8,1008+3), g = 8,
-   5 workers): complete, no wrap, 126 invocations, contract honoured *)
+(* the hypotheses are satisfiable by a non-trivial input with start mod g <> 0 *)
 Example C13_nonvacuous :
-  let c := PF 4 8 1011 0 4 2147483647 1 8 true in
+  let c := PF 1 5 250 0 4 2147483647 1 7 true in
   let x := EX 0 [] (own_then_poll 5 40) in
-  pf_mode c = MAdaptive /\ pf_complete c x = true /\ c12_nowrap c x = true /\ c12_narrow_domain c = false /\
-  c13_misaligned_domain c = false /\ c13_gran c = 8 /\
-  option_map (fun l => (length l, gran_okb 8 1011 l)) (pf_calls c x) = Some (126%nat, true).
+  pf_mode c = MAdaptive /\ pf_complete c x = true /\ c12_nowrap c x = true /\
+  c13_gran c = 7 /\ option_map (fun l => gran_okb 7 250 l) (pf_calls c x) = Some true.
 Proof. vm_compute. repeat split; reflexivity. Qed.
